@@ -263,10 +263,10 @@ def walk_rules(repo):
              and dotted(n.func) != "numpy.random.seed"]
     if not draws:
         out.append(unrecognised("R-RNG", fs, role, "no random draw in the walk"))
-    elif not seeds or body.index(seeds[0]) != 0:
-        out.append(violation("R-RNG", fs, role, "numpy.random.seed(random_state) is not the first statement: draws at %s are unseeded" % fs.line(draws[0]), draws[0]))
+    elif not seeds or any(any(d is x for x in ast.walk(b_)) for b_ in body[:body.index(seeds[0])] for d in draws):
+        out.append(violation("R-RNG", fs, role, "numpy.random.seed(random_state) does not precede the first draw: draws at %s are unseeded" % fs.line(draws[0]), draws[0]))
     else:
-        out.append(holds("R-RNG", fs, role, "seed is the first statement; %d draw(s) follow" % len(draws), seeds[0]))
+        out.append(holds("R-RNG", fs, role, "the seed is a top-level statement before every draw; %d draw(s) follow" % len(draws), seeds[0]))
     role = "the random permutation is applied to the strict prefix of each successor list (the last outgoing edge stays last)"
     src = [unparse(s) for s in walk_no_nested(fs.node) if isinstance(s, ast.Assign)]
     a = "next_idxs_ = numpy.arange(n)"
